@@ -411,6 +411,54 @@ def _structural(rec):
     for name, fn in cases.items():
         for entry in ('biogeme', 'expression'):
             _expect_refusal(rec, f'{name}', entry, lambda fn=fn, entry=entry: fn(entry))
+    # nests: every position of an overlap / of an alternative outside the choice set, among three nests over six
+    # alternatives, in both nest syntaxes, for the nested and the cross-nested logit
+    def V6():
+        return {1: ex.Beta('b1', 0.5, None, None, 0) * ex.Variable('x1'), 2: ex.Beta('b2', -0.5, None, None, 0) * ex.Variable('x2'),
+                3: ex.Numeric(0), 4: ex.Variable('x1') * 0.25, 5: ex.Variable('x2') * 0.5, 6: ex.Numeric(0.25)}
+
+    base_nests = [[1, 2], [3, 4], [5, 6]]
+    mus = lambda k: ex.Beta(f'mu{k}', 1.2 + 0.1 * k, 1, 10, 0)  # noqa: E731
+    variants = []
+    for a, b_ in itertools.combinations(range(3), 2):
+        nests = [list(n) for n in base_nests]
+        nests[b_] = nests[b_] + [nests[a][0]]          # nest b shares an alternative with nest a
+        variants.append((f'overlapping-nests:pair=({a},{b_})', nests))
+    for k in range(3):
+        nests = [list(n) for n in base_nests]
+        nests[k] = nests[k][:1] + [9]                   # nest k contains an alternative that is not in the choice set
+        variants.append((f'nest-leaves-choice-set:nest={k}', nests))
+    for vname, nests in variants:
+        def nl_objects(e, nests=nests):
+            return via(e, models.lognested(V6(), None, NestsForNestedLogit(
+                choice_set=[1, 2, 3, 4, 5, 6],
+                tuple_of_nests=tuple(OneNestForNestedLogit(mus(k), n, f'n{k}') for k, n in enumerate(nests))), ex.Variable('choice')))
+
+        def nl_tuples(e, nests=nests):
+            return via(e, models.lognested(V6(), None, tuple((mus(k), n) for k, n in enumerate(nests)), ex.Variable('choice')))
+
+        for entry in ('biogeme', 'expression'):
+            _expect_refusal(rec, vname + ':objects', entry, lambda fn=nl_objects, entry=entry: fn(entry))
+            _expect_refusal(rec, vname + ':legacy-tuples', entry, lambda fn=nl_tuples, entry=entry: fn(entry))
+        if vname.startswith('nest-leaves'):
+            def cnl_objects(e, nests=nests):
+                return via(e, models.logcnl(V6(), None, NestsForCrossNestedLogit(
+                    choice_set=[1, 2, 3, 4, 5, 6],
+                    tuple_of_nests=tuple(OneNestForCrossNestedLogit(mus(k), {a_: 1.0 for a_ in n}, f'n{k}') for k, n in enumerate(nests))),
+                    ex.Variable('choice')))
+            for entry in ('biogeme', 'expression'):
+                _expect_refusal(rec, vname + ':cnl', entry, lambda fn=cnl_objects, entry=entry: fn(entry))
+    # the unfaulted three-nest structure is accepted
+    for entry in ('biogeme', 'expression'):
+        try:
+            via(entry, models.lognested(V6(), None, NestsForNestedLogit(
+                choice_set=[1, 2, 3, 4, 5, 6], tuple_of_nests=tuple(OneNestForNestedLogit(mus(k), n, f'n{k}') for k, n in enumerate(base_nests))),
+                ex.Variable('choice')))
+            rec.case(None, ('structural-valid', 'three-nests', entry), outcome='accepted')
+        except Exception as e:
+            rec.violation(f'C12|valid-specification-rejected-{type(e).__name__}|structural:three-nests:{entry}',
+                          f'valid three-nest model rejected: {str(e)[:200]}', dict(part='structural'))
+            rec.retire = True
     # second derivatives without first ones
     f = ex.Beta('b1', 0.5, None, None, 0) * ex.Variable('x1')
     _expect_refusal(rec, 'hessian-without-gradient', 'get_value_and_derivatives',
